@@ -93,7 +93,11 @@ func (g *c02gen) step(k int) types.MalType {
 		return Call("with-meta", pick(), types.HashMap{Val: map[string]types.MalType{K("m"): 1}})
 	case 21:
 		g.hist["assoc-in/update"]++
-		switch g.r.Intn(3) {
+		switch g.r.Intn(4) {
+		case 3:
+			// the intermediate key is absent: the path is created in the RESULT, the argument keeps its keys
+			g.hist["assoc-in-missing-intermediate-key"]++
+			return Call("assoc-in", pick(), V(K("zz"), K("x")), lit)
 		case 0:
 			return Call("assoc-in", pick(), V(key, K("x")), lit)
 		case 1:
@@ -105,6 +109,11 @@ func (g *c02gen) step(k int) types.MalType {
 		g.hist["apply"]++
 		return Call("apply", g.r.Pick([]string{"conj", "concat", "vector", "list"}), pick(), Call("list", pick()))
 	case 23:
+		if g.r.Bool() {
+			// a function that KEEPS its rest-parameter list: each call's list is a value of its own
+			g.hist["map-keeping-rest-params"]++
+			return Call("map", Call("fn", V(S("&"), S("xs")), S("xs")), pick())
+		}
 		g.hist["map"]++
 		return Call("map", Call("fn", V(S("x")), Call("conj", pick(), S("x"))), V(1, 2))
 	case 24, 25:
